@@ -1129,6 +1129,7 @@ class Exec(object):
             for a, pos in m.pfs[pid].pos.items():
                 marks.append((pid, a, s.qb.mid(a)))
         tstamp = ts(t)
+        snap15 = snapshot(s) if ctx.judging("C15") else None
         ok, exc = self._call(s.broker.update, tstamp)
         ctx.event("tick", t, "open" if open_ else "closed", ok, len(s.captured))
         m.now = t
@@ -1137,6 +1138,12 @@ class Exec(object):
             for pr in ("C04", "C01", "C02", "C05"):
                 ctx.violate(pr, "valid_update_raised", {"t": iso(t), "exc": repr(exc)[:300]},
                             sig="valid_update_raised:" + type(exc).__name__)
+            if snap15 is not None:
+                # whatever made it raise: a request that ends in an error must not have changed anything
+                changed = _snap_diff(snap15, snapshot(s))
+                ctx.check("C15", not changed, "state_changed_by_request_that_raised",
+                          lambda: {"t": iso(t), "exc": repr(exc)[:300], "changed": changed[:8]},
+                          sig="state_changed_by_request_that_raised")
             raise StopRun()
         for pid, a, mid in marks:
             m.pfs[pid].pos[a].last = mid
